@@ -17,7 +17,7 @@ RULE = ("3 common bin tables x cell-name sets = EVERY non-empty subset (size 1..
         "reads pixels == that cell's input and bins == common table (+ that cell's extra column); the HDF5 objects cells/x/bins/{chrom,"
         "start,end} ARE the root's /bins objects (same object address: stored once); V per cell. Non-trivial: >=2 cells with different "
         "matrices. Distinct by construction.")
-EXTRA_LEGS = "per-cell bin columns whose values are nearly equal across cells (1e-9 relative) or tiny (1e-12); every third assignment passes each cell's pixels as a one-shot iterator of chunks."
+EXTRA_LEGS = "per-cell bin columns whose values are nearly equal across cells (1e-9 relative) or tiny (1e-12); every third assignment passes each cell's pixels as a one-shot iterator of chunks." + ' per-cell bin tables carry reversed / offset / all-equal row labels.'
 BOUNDS = {"quick": "all assignments for name sets of size <=2 and every other set of size 3 on table 0 (symmetric, bins once); size <=2 for the other 5 (table, mode, bins) variants",
           "thorough": "all assignments for size <=3 on every (table, mode, bins-variant)"}
 ASSUMPTIONS = ["cell names do not contain '/'", "each cell's pixel frame is sorted (create_scool passes frames straight to create)"]
